@@ -1016,8 +1016,10 @@ impl Run {
         if self.node().state() != "signing" {
             return None;
         }
-        let tp = self.world.time_point().await;
-        for t in self.types_at(&tp) {
+        // in the AGGREGATOR's own processing order (asked from the node): after a restart two open messages of the
+        // current time point can be uncertified, and a machine coming from READY takes the first of them in that order
+        // (a harness-side order once demanded a certificate for the other one: false alarm, corrected)
+        for t in self.node().current_entity_types().await {
             let Ok(Some(om)) = self.node().open_message(&t).await else { return None };
             if om.is_certified {
                 continue;
